@@ -236,6 +236,7 @@ package ast
 //@   props C10
 //@   requires symbolTypes != nil && node != nil && *node != nil
 //@   modifies *
+//@   censures[typing-does-not-touch-the-database] bktHas == old(bktHas) && bktVal == old(bktVal) && bktSub == old(bktSub)
 
 //@ func toInt64Nodes
 //@   props C10
